@@ -195,6 +195,13 @@ func runRoute(raw json.RawMessage) (interface{}, error) {
 			}
 		}
 		var router *xdssuite.XDSRouter
+		if !call.Extractor {
+			// decoys of a call that uses the default extractor are PERSISTENT metainfo values: the default extractor reads
+			// the transient ones only (and returns a nil map when there are none)
+			for _, kv := range call.Decoy {
+				ctx = metainfo.WithPersistentValue(ctx, kv[0], kv[1])
+			}
+		}
 		if call.Extractor {
 			for _, kv := range call.Decoy {
 				ctx = metainfo.WithValue(ctx, kv[0], kv[1])
